@@ -32,3 +32,15 @@ Theorem C11_space_exactly_where_the_option_names :  forall m,
   (CallForm.space_call m = true <-> (m = CallForm.SAlways \/ m = CallForm.SCalls)).
 Proof. exact CallForm.space_exactly_where_named. Qed.
 Print Assumptions C11_space_exactly_where_the_option_names.
+
+(* the quote chooser the binary runs (regenerated from src/formatters/general.rs on every run) is the model of the
+   quote rule above; it never reaches its unreachable!() *)
+From SV Require FmAst QuoteChoiceProof.
+From SVgen Require QuoteChoice.
+Theorem C11_generated_quote_chooser_is_the_model : forall st lit,
+  QuoteChoice.get_quote_to_use st lit = QuoteChoiceProof.quote_type_of (QuoteMore.choose (QuoteChoiceProof.style_of st) lit).
+Proof. exact QuoteChoiceProof.generated_chooser_is_model. Qed.
+Print Assumptions C11_generated_quote_chooser_is_the_model.
+Theorem C11_quote_chooser_never_panics : forall st lit, QuoteChoice.get_quote_to_use st lit <> FmAst.StringLiteralQuoteType_Unreachable.
+Proof. exact QuoteChoiceProof.unreachable_never_reached. Qed.
+Print Assumptions C11_quote_chooser_never_panics.
